@@ -372,7 +372,7 @@ class Batch:
                 exprs.append(coq_case(*cfg, [t for t, _ in part]))
                 index.append((cfg, part))
         try:
-            model = ck.coq_eval(self.stream.replace("/", "_").replace("-", "_"), PREAMBLE, exprs, shard=40)
+            model = ck.coq_eval(self.stream.replace("/", "_").replace("-", "_"), PREAMBLE, exprs, shard=40, jobs=3)
         except Exception as e:
             # the model cannot be evaluated (broken generated table / theory): reported, and every case still goes
             # through the implementation-only oracle
@@ -572,15 +572,15 @@ def run(ck):
     ck.assumptions = ["coefficients are dyadic rationals of small size, so binary64 arithmetic in the implementation is exact",
                       "scBK is exercised for even n_spinorbitals >= 2 only (spin-orbitals come in pairs)",
                       "matrix elements of qubit operators use the closed-form word action (word_flip / word_phase) of Pauli/Action.v"]
-    try:
-        tables = encoding_tables.extract(REPO)
-        ck.notes["tables_source"] = "regenerated from /repo"
-    except Exception as e:       # TranslateError (fail closed) or anything else inside the translator
-        ck.violation("C03/translator/encoding_tables", "translator no longer recognises the source: %s" % e,
-                     {"kind": "translator", "error": str(e)}, found_input=False)
-        tables = encoding_tables.FALLBACK
-        ck.notes["tables_source"] = "FALLBACK last-known-good constants from translator/encoding_tables.py " \
-                                    "(the translator failed on the current source: %s)" % str(e)[:200]
+    # every source file separately: a part the translator no longer recognises is reported and replaced by its
+    # last-known-good FALLBACK constants so that correspondence and oracles keep running
+    tables, terrs = encoding_tables.extract_parts(REPO)
+    for part, err in terrs.items():
+        ck.violation("C03/translator/encoding_tables/%s" % part, "translator no longer recognises the source: %s" % err,
+                     {"kind": "translator", "part": part, "error": err}, found_input=False)
+    ck.notes["tables_source"] = "regenerated from /repo" if not terrs else \
+        "regenerated from /repo except %s: FALLBACK last-known-good constants from translator/encoding_tables.py (%s)" % (
+            sorted(terrs), "; ".join("%s: %s" % (k, v[:160]) for k, v in terrs.items()))
     ck.write_gen("EncodingTables", encoding_tables.emit(tables))
     try:
         res = ck.prove()
